@@ -129,7 +129,7 @@ Ltac dsplit := refine (conj _ (conj _ (conj _ (conj _ (conj _ (conj _ _)))))).
 Lemma dinv_dstep sh d ok brk x a x' :
   shape_ok sh -> (ok = true -> d_pre x = []) -> dinv sh d x -> dstep sh ok brk x a x' -> dinv sh d x'.
 Proof.
-  intros (_ & _ & Hcw & _ & Hbuf & _ & _ & _ & _) Hok (I1 & I2 & I3 & I4 & I5 & I6 & I7) H.
+  intros (_ & _ & Hcw & _ & Hbuf & _ & _ & _ & _ & _) Hok (I1 & I2 & I3 & I4 & I5 & I6 & I7) H.
   destruct I1 as (lost & Eall & Hlost).
   inversion H; subst; unfold dinv; simpl; dsplit; simpl;
     try solve [ auto | intros; discriminate | rewrite len_nil; lia
@@ -167,7 +167,7 @@ Ltac gsplit := refine (conj _ (conj _ (conj _ (conj _ (conj _ (conj _ (conj _ _)
 
 Lemma ginv_init sh e o k : shape_ok sh -> ginv sh (init e o k).
 Proof.
-  intros (_ & _ & _ & _ & Hb & _ & _ & _ & _).
+  intros (_ & _ & _ & _ & Hb & _ & _ & _ & _ & _).
   unfold ginv, init; gsplit; simpl.
   - intros [|]; unfold dinv; simpl; dsplit; simpl; try solve [auto | intros; discriminate | rewrite len_nil; lia].
     + exists []. simpl. rewrite app_nil_r. split; reflexivity.
@@ -239,13 +239,14 @@ Proof.
   unfold can_copy. intros -> H. simpl in H. apply andb_true_iff in H as [_ H]. apply is_nil_true; assumption.
 Qed.
 
-Lemma may_break_ok sh s d : sh_clears_deadline sh = true -> may_break sh s d = any_closed s.
-Proof. unfold may_break. intros ->. simpl. apply orb_false_r. Qed.
+Lemma may_break_ok sh s d :
+  sh_clears_deadline sh = true -> sh_clears_wdeadline sh = true -> may_break sh s d = any_closed s.
+Proof. unfold may_break. intros -> ->. simpl. rewrite !orb_false_r. reflexivity. Qed.
 
 Lemma ginv_step sh s l s' : shape_ok sh -> ginv sh s -> step sh s l s' -> ginv sh s'.
 Proof.
   intros Hsh (ID & G1 & G2 & G3 & G4 & G5 & G6 & G7) H.
-  pose proof Hsh as (Hdf & Hrr & Hcw & Hwa & Hb & Hg & Hcu & Hcd & Hdl).
+  pose proof Hsh as (Hdf & Hrr & Hcw & Hwa & Hb & Hg & Hcu & Hcd & Hdl & Hwl).
   inversion H; subst.
   - (* tick *)
     unfold ginv, tick; gsplit; simpl.
@@ -315,7 +316,7 @@ Proof.
     + assert (s_first (close_side s sd) = s_first s) as -> by (destruct sd; reflexivity).
       intros E d. specialize (G7 E d). destruct d, sd; simpl in *; assumption.
   - (* a step of direction d *)
-    rename H0 into HD. rewrite (may_break_ok _ _ _ Hdl) in HD.
+    rename H0 into HD. rewrite (may_break_ok _ _ _ Hdl Hwl) in HD.
     assert (Hok : can_copy sh s = true -> d_pre (get d s) = []).
     { intro C. destruct d; [apply (can_copy_pre sh); assumption|].
       destruct (ID TC) as (_ & _ & _ & _ & _ & I6 & _). apply I6; reflexivity. }
@@ -491,7 +492,7 @@ Definition quiet : Prop := forall l s', step sh s l s' -> is_env l = true.
 Lemma quiet_done d : quiet -> d_wcl (get d s) = true -> d_cop (get d s) = Done.
 Proof.
   intros Q W.
-  destruct Hsh as (Hdf & Hrr & Hcw & Hwa & Hb & Hg & Hcu & Hcd & Hdl).
+  destruct Hsh as (Hdf & Hrr & Hcw & Hwa & Hb & Hg & Hcu & Hcd & Hdl & Hwl).
   destruct reach_inv as (ID & G1 & G2 & G3 & G4 & G5 & G6 & G7).
   (* the reply has been written *)
   assert (Rp : s_replied s = true).
@@ -501,7 +502,7 @@ Proof.
     destruct (ID d) as (_ & _ & I3 & _). specialize (I3 C).
     destruct (s_up s || s_down s) eqn:AC.
     + assert (St : dstep sh (can_copy sh s) (may_break sh s d) (get d s) Abort (upd_abort (get d s))).
-      { constructor; [rewrite (may_break_ok _ _ _ Hdl); exact AC | rewrite C; reflexivity]. }
+      { constructor; [rewrite (may_break_ok _ _ _ Hdl Hwl); exact AC | rewrite C; reflexivity]. }
       specialize (Q _ _ (S_dir sh s d Abort _ St)). discriminate.
     + (* early bytes still buffered: drain is enabled, or a copier already started *)
       destruct (d_pre (s_ct s)) eqn:P.
@@ -541,7 +542,7 @@ Proof.
     destruct (d_buf (get d s)) eqn:B.
     + destruct (s_up s || s_down s) eqn:AC.
       * assert (St : dstep sh (can_copy sh s) (may_break sh s d) (get d s) Abort (upd_abort (get d s))).
-        { constructor; [rewrite (may_break_ok _ _ _ Hdl); exact AC | rewrite C; reflexivity]. }
+        { constructor; [rewrite (may_break_ok _ _ _ Hdl Hwl); exact AC | rewrite C; reflexivity]. }
         specialize (Q _ _ (S_dir sh s d Abort _ St)). discriminate.
       * assert (Fo : s_forced s = false \/ s_forced s = true) by (destruct (s_forced s); auto).
         destruct Fo as [Fo|Fo].
@@ -591,7 +592,7 @@ Lemma both_closed :
 Proof.
   intros Q W1 W2.
   pose proof (quiet_done CT Q W1) as D1. pose proof (quiet_done TC Q W2) as D2. simpl in D1, D2.
-  destruct Hsh as (_ & _ & _ & Hwa & _ & _ & Hcu & Hcd & _).
+  destruct Hsh as (_ & _ & _ & Hwa & _ & _ & Hcu & Hcd & _ & _).
   assert (Fin : finished sh s = true).
   { unfold finished, both_done, is_done. rewrite Hwa, D1, D2. reflexivity. }
   split.
